@@ -453,9 +453,10 @@ func c13RunAsk(line string) string {
 	// cleanup: everything parked continues, every reply may be sent, then the actor is closed
 	ctl.Uninstall()
 	close(gateOpen)
+	cleanupDeadline := time.Now().Add(1500 * time.Millisecond)
 	for _, t := range threads {
 		if t != nil {
-			t.Wait(2 * time.Second)
+			t.Wait(time.Until(cleanupDeadline))
 		}
 	}
 	func() { defer func() { recover() }(); actor.Close() }()
@@ -558,20 +559,32 @@ func c13RunStress(line string) string {
 	go func() { wg.Wait(); close(done) }()
 	select {
 	case <-done:
-	case <-time.After(40 * time.Second):
-		return "viol deadlock askers still blocked after 40 s"
+	case <-time.After(c13StressPatience(12 * time.Second)):
+		atomic.AddInt32(&c13StressViols, 1)
+		return "viol deadlock askers still blocked (actor stuck in Reply or an ask never returned)"
 	}
 	// after all the timeouts the actor must still answer a fresh ask
 	fresh := c13NewAsk(777, 0, 0)
-	v, err := fresh.AskOnceWithTimeout(actor, 10*time.Second)
+	v, err := fresh.AskOnceWithTimeout(actor, c13StressPatience(8*time.Second))
 	if err != nil || v != reply(777) {
 		setViol(fmt.Sprintf("stuck the actor does not answer a fresh ask any more (%d, %v)", v, err))
 	}
 	func() { defer func() { recover() }(); actor.Close() }()
 	if viol != "" {
+		atomic.AddInt32(&c13StressViols, 1)
 		return "viol " + viol
 	}
 	return "ok"
+}
+
+var c13StressViols int32
+
+// c13StressPatience: generous while everything is fine, short once this process has already seen violations
+func c13StressPatience(d time.Duration) time.Duration {
+	if atomic.LoadInt32(&c13StressViols) >= 2 {
+		return 2 * time.Second
+	}
+	return d
 }
 
 func c13Run(line string) string {
